@@ -25,9 +25,11 @@ PROP = {'gen': ['base64'],
                'payload of one draw = row-major RGBA with declared s, v, chunks <= 4096, multiples of four, m=1 exactly on non-final '
                'chunks (any image size, by induction over the chunking); over all histories no protocol error, every placement names '
                'a transmitted image, pixels transmitted at most once between error responses; placement ids in 1..2^32-1, invertible '
-               'and injective for coordinates < 65536 except the forced pair (0,0)/(65535,65535) (pigeonhole theorem), erase removes '
+               'and injective for coordinates < 65536 except the forced pair (65534,65535)/(65535,65535) (pigeonhole theorem), erase removes '
                'exactly the placement draw created; the model passes the very predicate applied to the implementation on every '
-               'well-formed case. Constants regenerated from the source each run; model tied to the code by the byte-for-byte '
+               'well-formed case outside the two known classes (two contents colliding in the 32-bit image id: id-collision, '
+               'refuted by a concrete pair; the last position sharing its placement id: pid-corner). Pixels are transmitted at most '
+               'once BETWEEN ERROR RESPONSES naming the id (C11_once_between_errors), not once per handler lifetime. Constants regenerated from the source each run; model tied to the code by the byte-for-byte '
                'correspondence run.',
  'level_note': 'Trusted: Coq kernel + vm_compute; translate/kitty.py, translate/tables.py; hand-written model validated by the '
                'correspondence run; Image/KittySpec.v as the reading of the kitty graphics protocol document; Surface::hash modelled '
@@ -38,7 +40,7 @@ PROP = {'gen': ['base64'],
  'design_ref': 'DESIGN.md 6.11',
  'n_quick': 400,
  'n_thorough': 6000,
- 'shard': 50,
+ 'shard': 25,
  'level': 'proof',
  'trusted_base': [KERNEL,
                   'translate/kitty.py: KITTY_MAX_ID, KITTY_MAX_DIM and the argument of payload.chunks(..) are re-extracted from '
